@@ -1368,7 +1368,41 @@ func (r *Reader) processParagraph(p paragraphXML) parsedParagraph {
 
 // extractRunText extracts text from a run element.
 func (r *Reader) extractRunText(run runXML) string {
+	return runText(run)
+}
+
+// runText assembles the text of a run: its text, symbols, tabs and breaks in the
+// order in which they appear in the document.
+func runText(run runXML) string {
 	var parts []string
+
+	if len(run.Order) > 0 {
+		for _, c := range run.Order {
+			switch c.Kind {
+			case 't':
+				parts = append(parts, run.Text[c.Index].Value)
+			case 's':
+				if char := parseSymbolChar(run.Symbols[c.Index].Char); char != "" {
+					parts = append(parts, char)
+				}
+			case 'a':
+				for _, t := range run.AlternateContent[c.Index].Fallback.Text {
+					parts = append(parts, t.Value)
+				}
+			case 'T':
+				parts = append(parts, "\t")
+			case 'b':
+				if run.Breaks[c.Index].Type == "page" {
+					parts = append(parts, "\n\n")
+				} else {
+					parts = append(parts, "\n")
+				}
+			}
+		}
+		return strings.Join(parts, "")
+	}
+
+	// A run built without child order (not decoded from XML): slice by slice.
 
 	for _, t := range run.Text {
 		parts = append(parts, t.Value)
